@@ -8,7 +8,7 @@ ENGINES = [
     {"name": "E4 in-process Rust harness", "path": "rs/", "serves_properties": ["C04","C10","C20"],
      "kind_free_text": "binaries linked against the repo's library (codec, RDB loader, skip list) with a counting global allocator, catch_unwind, child processes for abort-class failures"},
     {"name": "E5 sanitizers / alternate builds", "path": "fv/sanitize.py, fv/checks/tsan_soup.py, fv/rsbin.py", "serves_properties": ["C01","C02","C03","C04","C06","C10","C12","C15","C16","C20"],
-     "kind_free_text": "thorough tier: AddressSanitizer build of the server under the model-differential workloads and the C06 enumeration, ThreadSanitizer build (-Zbuild-std) under expire / save workloads, Miri on the in-process harness, valgrind memcheck under the hostile Lua corpus, release-profile server; report blocks are counted from the child's log"},
+     "kind_free_text": "thorough tier: AddressSanitizer build of the server under the model-differential workloads (with a second connection sending BGSAVE every 15 ms) and the C06 enumeration, ThreadSanitizer build (-Zbuild-std) under expire / save workloads, Miri on the in-process harness (sequential histories and a bounded writer-vs-readers stage), valgrind memcheck under the hostile Lua corpus, release-profile server; report blocks are counted from the child's log"},
 ]
 NOTES = ("Runtime monitoring only: every verdict is 'held on the executions described in evidence/<id>.json'. "
          "KNOWN_FINDINGS.txt lists repaired (fixed:) and tolerated (known:) genuine defects. See DESIGN.md.")
